@@ -186,6 +186,11 @@ class Rig(object):
             a, b = socket.socketpair()
             self._keep = (a, b)
             if transport == 'socket':
+                if variant % 2 == 1:
+                    # a socket on which the user has set a timeout (socket.create_connection(addr, timeout=...)):
+                    # Python then sends in non-blocking mode, one send() may take only part of a large payload
+                    a.settimeout(30)
+                    self.kind = 'socket(with timeout)'
                 self.child = pexpect.socket_pexpect.SocketSpawn(a, **kw)
                 self._raw = a.sendall
             else:
